@@ -462,7 +462,11 @@ def dmtx_from_csv(path, frametimes=None):
     with open(path, newline='') as csvfile:
         # restrict the guess to real separators: on a one-column file the
         # sniffer otherwise picks a digit or a letter of the header
-        dialect = csv.Sniffer().sniff(csvfile.read(), delimiters=',;\t ')
+        try:
+            dialect = csv.Sniffer().sniff(csvfile.read(), delimiters=',;\t ')
+        except csv.Error:
+            # one-column file: there is no delimiter to find
+            dialect = csv.excel
         csvfile.seek(0)
         reader = csv.reader(csvfile, dialect)
         boolfirst = True
